@@ -53,6 +53,8 @@ func c18Base() *spec.Program {
 	p.Config = spec.Config{
 		Types:          []string{"RootAExt", "RootA", "RootF", "RootB", "RootC", "RootD", "RootE", "RootBExt", "RootD2", "Clean"},
 		ComputedFields: []string{"Clean.Count"},
+		// configured although duration_type is not: a field cast to it has no mapping
+		DurationCustomType: spec.DurationCastName,
 		NameOverrides:  map[string]string{"Clean.Name": "clean_name"},
 	}
 	return p
@@ -85,6 +87,15 @@ var badKinds = []badKind{
 	}},
 	{"cast-duration-without-duration_type", func(n string, num int32) spec.Field {
 		return spec.Field{Name: n, Num: num, Kind: spec.KInt64, Cast: "time.Duration"}
+	}},
+	{"custom-duration-cast-without-duration_type", func(n string, num int32) spec.Field {
+		return spec.Field{Name: n, Num: num, Kind: spec.KInt64, Cast: spec.DurationCastName}
+	}},
+	{"custom-duration-cast-list-without-duration_type", func(n string, num int32) spec.Field {
+		return spec.Field{Name: n, Num: num, Kind: spec.KInt64, Cast: spec.DurationCastName, Card: spec.CardList}
+	}},
+	{"duration-list-without-duration_type", func(n string, num int32) spec.Field {
+		return spec.Field{Name: n, Num: num, Kind: spec.KDuration, Card: spec.CardList}
 	}},
 	{"time-list-without-time_type", func(n string, num int32) spec.Field {
 		return spec.Field{Name: n, Num: num, Kind: spec.KTime, Card: spec.CardList}
